@@ -180,17 +180,25 @@ def run(ctx):
         if ok:
             o_, i_ = inter[0].args[0], inter[0].args[1]
             a_ = area[0].args[0]
-            # inner element comes from the iterator over the suffix (has `index`/range call), outer from enumerate
-            inner_is_suffix = i_.has_call('index') or 'RangeFrom' in repr(i_)
-            outer_is_enum = o_.has_call('enumerate') and not (o_.has_call('index') or 'RangeFrom' in repr(o_))
-            ok = inner_is_suffix and outer_is_enum and repr(a_.strip()) == repr(i_.strip())
+            # inner element comes from the suffix after the outer position, outer from the walk over all candidates
+            ok = elem_role(i_) == 'inner' and elem_role(o_) == 'outer' and repr(a_.strip()) == repr(i_.strip())
         ctx.check(ok, R, b, 'fraction=intersection(outer,inner)/area(inner)', detail[:200],
                   'the covered fraction is %s: expected intersection(higher-ranked, lower-ranked) divided by the area '
                   'of the lower-ranked (inner-loop) box' % detail[:300])
     # suffix: slice index RangeFrom{Add(outer position, 1)}
     idx = [c for c in b.find_calls('index') if 'RangeFrom' in ' '.join(c.ga) or 'RangeFrom' in b.locals[c.args[1]['pl']['l']]]
+    # index-loop form: `for j in i + 1..n { ob = &v[j] }` — the inner range starts right after the outer position
+    inner_ranges = []
+    for c in b.find_calls('std::iter::Iterator::next'):
+        it = eb.arg(c, 0)
+        for x in it.walk():
+            if x.kind == 'agg' and x.name.endswith('Range::Range') and len(x.args) == 2:
+                st_ = x.args[0]
+                if st_.kind == 'bin' and st_.name == 'Add' and st_.args[1].const_value() == '1' and \
+                        st_.args[0].has_call('next'):
+                    inner_ranges.append(c)
     n += 1
-    oks = False
+    oks = bool(inner_ranges)
     detail = ''
     for c in idx:
         r = eb.arg(c, 1)
@@ -212,12 +220,13 @@ def run(ctx):
     for c in ins:
         a = eb.arg(c, 1)
         n += 1
-        ctx.check(a.has_call('index') or 'RangeFrom' in repr(a), R, b, 'insert(inner-id)', '',
+        ctx.check(elem_role(a) == 'inner', R, b, 'insert(inner-id)', '',
                   'the box recorded as excluded is not the inner-loop (lower-ranked) box', c.ln)
     # outer skip: a contains() on the outer element dominates the inner loop
     n += 1
-    outer_checks = [c for c in cont if not (eb.arg(c, 1).has_call('index') or 'RangeFrom' in repr(eb.arg(c, 1)))]
-    oko = bool(outer_checks) and bool(idx) and all(b.dominates(outer_checks[0].bb, c.bb) for c in idx)
+    outer_checks = [c for c in cont if elem_role(eb.arg(c, 1)) == 'outer']
+    inner_starts = idx or inner_ranges
+    oko = bool(outer_checks) and bool(inner_starts) and all(b.dominates(outer_checks[0].bb, c.bb) for c in inner_starts)
     ctx.check(oko, R, b, 'excluded-outer-box-is-skipped', '', 'an excluded box is not skipped before it is used as a '
               'suppressor')
     # final stage: keeps exactly the candidates whose id is not excluded; the kept element is its `bbox`
@@ -252,7 +261,7 @@ def run(ctx):
     ok = ret.has_call('collect') and (ret.has_call('filter_map') or (ret.has_call('map') and ret.has_call('filter')))
     if not result_bbox:
         mp = [c for c in b.find_calls('std::iter::Iterator::map') if eb.arg(c, 0).has_call('filter') and
-              eb.arg(c, 0).has_call('into_iter')]
+              (eb.arg(c, 0).has_call('into_iter') or eb.arg(c, 0).has_call('iter'))]
         for c in mp:
             for cb in closure_args_of_call(F, b, c):
                 e = ExprBuilder(cb).place(0, ()).strip()
@@ -263,6 +272,24 @@ def run(ctx):
     R = 'R14.5'
     ctx.rule(R, 'Universal2DBox::clone never carries the vertex cache')
     clone_rule(ctx, R)
+
+
+def elem_role(e):
+    """'inner' / 'outer' / None — which loop variable an expression of nms() denotes, for both loop styles:
+    `for (i, cb) in v.iter().enumerate() { for ob in &v[i + 1..] {..} }` and `for i in 0..n { for j in i + 1..n {..} }`"""
+    if e.has_call('index') and 'RangeFrom' in repr(e):
+        return 'inner'
+    ranges = [x for x in e.walk() if x.kind == 'agg' and x.name.endswith('Range::Range') and len(x.args) == 2]
+    for r in ranges:
+        st_ = r.args[0]
+        if st_.kind == 'bin' and st_.name == 'Add' and st_.args[1].const_value() == '1':
+            return 'inner'
+    if e.has_call('enumerate'):
+        return 'outer'
+    for r in ranges:
+        if r.args[0].kind == 'const' and r.args[0].const_value() == '0':
+            return 'outer'
+    return None
 
 
 def clone_rule(ctx, R):
